@@ -2,6 +2,7 @@ package main
 
 import (
 	"fmt"
+	"go/constant"
 	"go/token"
 	"go/types"
 	"sort"
@@ -12,7 +13,7 @@ import (
 
 func init() {
 	register("C10", runC10, propMeta{
-		Explanation: "Decides the structural conditions behind 'total, all-or-nothing, identical across entry points': (K1, sibling cross-check) each of the three functions that create a lexer (BuildRuleFromString, BuildRuleWithIncremental, getKc) feeds the whole text to one input stream, attaches a fresh GengineErrorListener to the lexer and another to the parser, walks psr.Primary() with a GengineParserListener over a fresh KnowledgeContext, and every return with a nil error is dominated by the three tests len(lexerErrors)>0, len(parserErrors)>0, len(listener.ParseErrors)>0, each of whose true edges returns a new error; the five public entry points reach exactly these pipelines (call graph); (K2) no store to installed state can be followed by an error return in any entry point or helper; (K3) the listener stores a rule under its name only on the miss edge of a lookup of the same name in the same map, the hit edge records an error; (K4) holder completeness: every Enter handler that pushes pushes one *base.T, the matching Exit pops once asserting the same type, and for every handler that asserts the type of the stack top, every possible nearest pushing ancestor in the generated parser's rule call graph (all rule-invocation chains, which is also the nesting of error-recovered trees) pushes a type that implements the asserted interface / is the asserted type, and the stack cannot be empty there; (K5) every handler that touches the stack or the container does so only after the guard `len(ParseErrors) > 0 -> return`, so after the first recorded error the stack is never touched again. (K9) on the way from an entry point to a pipeline the rule text is handed on from parameter to parameter, never a value computed from it, so that every entry point compiles the very string it received. (K8) no handler of the listener package cuts a string or slice by position unless dominating length tests cover the bounds (contexts of truncated texts have empty text). Not decided: that the ANTLR lexer/parser never panic on arbitrary bytes and that token accessors (ctx.SIMPLENAME() etc.) are non-nil on error-recovered contexts. (K10) in every function that carries the text towards a pipeline no return with a possibly nil error avoids the call that carries it on: a text is accepted only after it has been compiled. (K11) after the lexer has been created a pipeline returns an error only under a test of a length or of an error for nil: the pipelines reject on the same grounds. (K12) the merge inserts where tool.BinarySearch says: a hit returns the probe, a miss the insertion point and 0.",
+		Explanation: "Decides the structural conditions behind 'total, all-or-nothing, identical across entry points': (K1, sibling cross-check) each of the three functions that create a lexer (BuildRuleFromString, BuildRuleWithIncremental, getKc) feeds the whole text to one input stream, attaches a fresh GengineErrorListener to the lexer and another to the parser, walks psr.Primary() with a GengineParserListener over a fresh KnowledgeContext, and every return with a nil error is dominated by the three tests len(lexerErrors)>0, len(parserErrors)>0, len(listener.ParseErrors)>0, each of whose true edges returns a new error; the five public entry points reach exactly these pipelines (call graph); (K2) no store to installed state can be followed by an error return in any entry point or helper; (K3) the listener stores a rule under its name only on the miss edge of a lookup of the same name in the same map, the hit edge records an error; (K4) holder completeness: every Enter handler that pushes pushes one *base.T, the matching Exit pops once asserting the same type, and for every handler that asserts the type of the stack top, every possible nearest pushing ancestor in the generated parser's rule call graph (all rule-invocation chains, which is also the nesting of error-recovered trees) pushes a type that implements the asserted interface / is the asserted type, and the stack cannot be empty there; (K5) every handler that touches the stack or the container does so only after the guard `len(ParseErrors) > 0 -> return`, so after the first recorded error the stack is never touched again. (K9) on the way from an entry point to a pipeline the rule text is handed on from parameter to parameter, never a value computed from it, so that every entry point compiles the very string it received. (K8) no handler of the listener package cuts a string or slice by position unless dominating length tests cover the bounds (contexts of truncated texts have empty text). Not decided: that the ANTLR lexer/parser never panic on arbitrary bytes and that token accessors (ctx.SIMPLENAME() etc.) are non-nil on error-recovered contexts. (K10) in every function that carries the text towards a pipeline no return with a possibly nil error avoids the call that carries it on: a text is accepted only after it has been compiled. (K11) after the lexer has been created a pipeline returns an error only under a test of a length or of an error for nil: the pipelines reject on the same grounds. (K12) the merge inserts where tool.BinarySearch says: a hit returns the probe, a miss the insertion point and 0. (K13) on the way to the pipeline a function returns an error of its own only on grounds that are not a look at the text, the test for an empty or blank text aside.",
 		Assumptions: []string{"ANTLR builds a parse tree nested by rule invocation and calls Enter/Exit in matching pairs", "the antlr runtime itself is total"},
 		Trusted:     commonTrusted,
 	})
@@ -206,6 +207,104 @@ func runC10(c *Ctx) {
 			c.Check("K10-accepted-only-when-compiled", fnName(g), !bad, badPos, "%s can return without an error and without having compiled the text (a way round the call that carries the text to the pipeline): it accepts texts the other entry points reject", fnName(g))
 		}
 		c.Min("K10-accepted-only-when-compiled", 5)
+		// ---- K13: ... and rejected only by the pipeline: on the way to it a function returns an error of
+		// its own only on grounds that are not a look at the text (an empty or blank text aside, which every
+		// entry point refuses) -- a "cannot hold a rule" shortcut rejects a text the other entry points accept
+		for _, g := range carriers {
+			gx := c.Index(g)
+			tp := textParam[g]
+			carries := func(in ssa.Instruction) bool {
+				if call, ok := in.(*ssa.Call); ok && isPipe[g] && calleeIs(call, pParser, "", "NewgengineLexer") {
+					return true
+				}
+				cc := callCommon(in)
+				if cc == nil {
+					return false
+				}
+				h := cc.StaticCallee()
+				return h != nil && textParam[h] != nil && seenSite[in]
+			}
+			var dependsOnText func(v ssa.Value, d int) bool
+			dependsOnText = func(v ssa.Value, d int) bool {
+				if d > 6 || v == nil {
+					return false
+				}
+				o := gx.Origin(v)
+				if o == ssa.Value(tp) {
+					return true
+				}
+				if ins, ok := o.(ssa.Instruction); ok {
+					if _, isPhi := o.(*ssa.Phi); !isPhi {
+						for _, op := range ins.Operands(nil) {
+							if *op != nil && dependsOnText(*op, d+1) {
+								return true
+							}
+						}
+					}
+				}
+				return false
+			}
+			emptyTest := func(cond ssa.Value) bool {
+				bo, ok := cond.(*ssa.BinOp)
+				if !ok || (bo.Op != token.EQL && bo.Op != token.NEQ) {
+					return false
+				}
+				isText := func(v ssa.Value) bool {
+					o := gx.Origin(v)
+					// (a blank text is an empty one: strings.TrimSpace(text) == "")
+					if call, isCall := o.(*ssa.Call); isCall && fnIs(call.Call.StaticCallee(), "strings", "", "TrimSpace") {
+						o = gx.Origin(call.Call.Args[0])
+					}
+					return o == ssa.Value(tp)
+				}
+				isEmpty := func(v ssa.Value) bool {
+					k, ok := gx.Origin(v).(*ssa.Const)
+					return ok && k.Value != nil && k.Value.Kind() == constant.String && constant.StringVal(k.Value) == ""
+				}
+				if (isText(bo.X) && isEmpty(bo.Y)) || (isText(bo.Y) && isEmpty(bo.X)) {
+					return true
+				}
+				// len(text) == 0
+				for _, pr := range [][2]ssa.Value{{bo.X, bo.Y}, {bo.Y, bo.X}} {
+					if args, isLen := builtinCall(gx.Origin(pr[0]), "len"); isLen && isText(args[0]) {
+						if k, isK := constInt(gx.Origin(pr[1])); isK && k == 0 {
+							return true
+						}
+					}
+				}
+				return false
+			}
+			bad, badPos := "", g.Pos()
+			eachInstr(g, func(in ssa.Instruction) {
+				r, isR := in.(*ssa.Return)
+				if !isR || bad != "" || len(r.Results) == 0 || tp == nil {
+					return
+				}
+				last := r.Results[len(r.Results)-1]
+				if !isErrorType(last.Type()) {
+					return
+				}
+				own := false
+				for _, pv := range gx.ValuesAt(last, r) {
+					if pv.V != nil && isNewError(pv.V) {
+						own = true
+					}
+				}
+				if !own {
+					return
+				}
+				if _, before := pathExistsEB(g, nil, func(i2 ssa.Instruction) bool { return i2 == in }, nil, carries); !before {
+					return
+				}
+				for _, gd := range gx.GuardsOf(r.Block()) {
+					if dependsOnText(gd.Cond, 0) && !emptyTest(gd.Cond) {
+						bad, badPos = gx.Describe(gd.Cond), r.Pos()
+					}
+				}
+			})
+			c.Check("K13-rejected-by-the-pipeline-only", fnName(g), bad == "", badPos, "%s returns an error of its own, before the text has reached the pipeline, under the condition %s on the text: a text is rejected by one entry point iff by all, so only the pipeline (and the test for an empty text) may look at it", fnName(g), bad)
+		}
+		c.Min("K13-rejected-by-the-pipeline-only", 5)
 	}
 	// ---- K11: the pipelines reject on the same grounds. After the lexer has been created a pipeline returns
 	// an error only under a test of the length of something (the three lists of recorded errors, the number
